@@ -27,6 +27,8 @@ def witness_from_trace(trace):
 
 def write_replay(pid, rel, o, res, tier):
     d = os.path.join(VERIF, 'replays', pid)
+    if os.environ.get('VERIF_REPO'):
+        d = os.path.join(VERIF, '.work', 'scratch_replays', os.environ.get('VERIF_WORKTAG', 'scratch'), pid)
     os.makedirs(d, exist_ok=True)
     key = hashlib.sha1((str(rel) + o.get("id", '') + str(o.get("label"))).encode()).hexdigest()[:8]
     lab = re.sub(r'[^\w.]+', '_', o.get("label") or 'unlabelled')
